@@ -176,7 +176,7 @@ def to_triples(d, properties=True, lnk=True):
         if node.id in main_component:
             _id = idmap[node.id]
             triples.append((_id, ':instance', node.predicate))
-            if lnk and node.lnk is not None:
+            if lnk and node.lnk:
                 triples.append((_id, ':lnk', '"{}"'.format(str(node.lnk))))
             if node.carg is not None:
                 triples.append((_id, ':carg', '"{}"'.format(node.carg)))
